@@ -21,6 +21,7 @@ SHRINK_KEEP_FIRST = 1          # every history starts with `reset` (tells the st
 NS = 8
 RULE = ("cases = histories of 12..300 statements over 8 root Vars driven by a python shadow simulation (typed and Var-to-Var assignment "
         "incl. own elements/properties and ancestors, auto-creating paths, <<, resize, removeAt, remove, clear, extend, clone, copy, drop, "
+        "p = *q + off with q a string inside the container p holds (v = *v[0]), string keys on scalars and negative ones on arrays, "
         "p = *p + off on the Var's own string, removeAt counts up to INT_MAX, string keys applied to arrays, ULong literals up to 2^64, "
         "Var(Type) for every type, every Var constructed in 0xAB-poisoned storage, "
         "constructors incl. Var(long/unsigned long), Array<T>/initializer_list<T>/Dic<T>/Var::array({..}); source reference resolved before "
@@ -329,7 +330,8 @@ class Sim:
             # operator[](const String&) on an ARRAY forwards to operator[]((int)key) (7407dbc)
             j = key_index(s[1])
             if j < 0:
-                raise Skip("badarg")
+                self.count("negative string key applied to an array")
+                return loc          # an error message and `return *this` (095ba92)
             self.count("string key applied to an array")
             s = ("i", j)
         if guard and self.invalidates(v, s, src):
@@ -355,7 +357,7 @@ class Sim:
             return self.index_key(o, k, guard)
         if isinstance(v, Obj):
             return self.index_key(v, k, guard)
-        raise Skip("badarg")
+        return loc                  # Var[String] on a scalar: an error message and `return *this`
 
     def resolve_mut(self, p, guard, src=None):
         loc = ("slot", p[0])
@@ -558,6 +560,19 @@ class Sim:
                 return "badarg"
             self.count("assignment of a piece of the Var's own string")
             self.write(loc, ("s", v[1][off:]))
+            return "ok"
+        if op == "setcs":
+            p, q = parse_path(t[1]), parse_path(t[2])
+            off = int(t[3])
+            sl = self.source(q)
+            loc = self.resolve_mut(p, guard, sl)
+            src = self.through(sl)
+            if not (isinstance(src, tuple) and src[0] == "s") or off > len(src[1]):
+                return "badarg"
+            old = self.read(loc)
+            if is_cont(old) and q[0] == p[0] and len(q[1]) > len(p[1]) and q[1][:len(p[1])] == p[1]:
+                self.count("const char* assignment from a string inside the target container")
+            self.write(loc, ("s", src[1][off:]))
             return "ok"
         if op == "setv":
             p, q = parse_path(t[1]), parse_path(t[2])
@@ -778,9 +793,7 @@ class Sim:
                 o = Fraction(int(t[3]), 2 ** int(t[4]))
                 if nv is None:
                     return "0"
-                if v[0] == "i":
-                    return "1" if Fraction(to_f32(float(v[1]))) == o else "0"
-                return "1" if nv == o else "0"
+                return "1" if nv == o else "0"      # exact, also for an INT (cda9080): 16777217 is not 16777216.0f
             if k == "b":
                 return "1" if v == ("b", t[3] == "1") else "0"
             if k in ("s", "c"):
@@ -975,7 +988,7 @@ class Gen:
                 if rng.random() < 0.12:
                     # v["7"]: operator[](const String&) on an array; the key goes through String::operator int()
                     d = b"%d" % i
-                    steps.append(("k", rng.choice([d, d, d, b"+" + d, b"00" + d, d + b"x", d + b".9", b"name", b"", b"-1", b"-0", b" 1",
+                    steps.append(("k", rng.choice([d, d, d, b"+" + d, b"00" + d, d + b"x", d + b".9", b"name", b"", b"-1", b"-1", b"-2", b"-2147483648", b"-0", b" 1",
                                                    b"4294967296", b"4294967297", b"-4294967295"])))
                 else:
                     steps.append(("i", i))
@@ -985,7 +998,8 @@ class Gen:
                 steps.append(("i", rng.choice([0, 0, 1, 2, 3, 4, 7])) if rng.random() < 0.5 else ("k", rng.choice(KEYS)))
             else:
                 if rng.random() < 0.3:
-                    steps.append(("i", rng.randrange(0, 3)))    # `return *this`
+                    # on a scalar both overloads `return *this` (the String one after an error message)
+                    steps.append(("i", rng.randrange(0, 3)) if rng.random() < 0.6 else ("k", rng.choice(KEYS)))
                 break
             v = None
         return path_str(root, steps)
@@ -1040,6 +1054,24 @@ class Gen:
             line = "%s %s %s" % ((rng.choice(["setv", "setv", "app", "ext"]),) + pq)
             # half of them may fall into the known finding (refused as skip-source-moved): the guard itself is compared
             if rng.random() < 0.5 and self.would(line) == "skip-source-moved":
+                return
+            self.emit(line)
+            return
+        if r < 0.06 and r >= 0.045:
+            # p = *q + off with q a string Var: mostly inside the container that p holds (v = *v[0], v = *v["k"]["j"])
+            for _ in range(8):
+                root, steps, v = self.rand_path(deep=0.95)
+                if isinstance(v, tuple) and v[0] == "s":
+                    break
+            else:
+                return
+            L = len(v[1])
+            if steps and rng.random() < 0.7:
+                target = path_str(root, steps[:rng.randrange(0, len(steps))])
+            else:
+                target = self.target_path()
+            line = "setcs %s %s %d" % (target, path_str(root, steps), rng.choice([0, 0, 0, 1, L, max(L - 7, 0), max(L - 8, 0), rng.randrange(0, L + 1)]))
+            if rng.random() < 0.8 and self.would(line) in ("skip-shared-growth", "skip-source-moved"):
                 return
             self.emit(line)
             return
@@ -1408,6 +1440,21 @@ def boundary_cases(rng, tier):
                 c += ["set %s s %s" % (where, hexs(s)), "setsub %s %d" % (where, off), "dump %s" % where, "type %s" % where, "len %s" % where, "tostr %s" % where]
             c += ["setsub %s 1" % where, "setsub %s 1" % where, "dumpall", "setsub %s %d" % (where, n + 5), "set 3 i 5", "setsub 3 0"]
             cases.append(c)
+    # p = *q: the text of an own element / property (v = *v[0], v = *v["k"], a[1] = *a[1][0]); container shared or not
+    for n in [0, 1, 5, 7, 8, 9, 24, 100]:
+        s = bytes(rng.choice(b"abcdefghijklmnopqrstuvwxyz0123456789") for _ in range(n))
+        for shared in (False, True):
+            for tgt, src, build in [("0", "0/i0", ["appl 0 s %s" % hexs(s), "appl 0 i 2"]),
+                                    ("0", "0/k6b", ["set 0/k6b s %s" % hexs(s), "set 0/k61 i 1"]),
+                                    ("0/i1", "0/i1/i0", ["appl 0 i 1", "appl 0/i1 s %s" % hexs(s), "appl 0/i1 b 1"]),
+                                    ("0", "0/k6b/i2/k6a", ["set 0/k6b/i2/k6a s %s" % hexs(s)]),
+                                    ("0/k6b", "0/k6b/i2/k6a", ["set 0/k6b/i2/k6a s %s" % hexs(s)])]:
+                c = ["reset"] + build
+                if shared:
+                    c.append("copy 1 %s" % tgt)
+                off = rng.choice([0, 0, min(1, n), n // 2, n])
+                c += ["setcs %s %s %d" % (tgt, src, off), "dump %s" % tgt, "type %s" % tgt, "len %s" % tgt, "dumpall", "rc 1", "drop 1", "dumpall"]
+                cases.append(c)
     # removeAt(i, n) with counts up to INT_MAX
     for L in [1, 2, 3, 4, 7, 13]:
         c = ["reset"] + ["appl 0 i %d" % i for i in range(L)] + ["copy 1 0", "set 2/k61 t ARRAY"] + ["appl 2/k61 s %s" % hexs(b"element number %d" % i) for i in range(L)]
@@ -1432,7 +1479,7 @@ def boundary_cases(rng, tier):
         cases.append(c)
     # string keys applied to arrays: existing element, first free, beyond the capacity, non-numeric texts, a second handle
     for L in [0, 1, 3, 4, 6]:
-        for key in [b"0", b"%d" % max(L - 1, 0), b"%d" % L, b"%d" % (L + 1), b"7", b"13", b"+2", b"007", b"5x", b"name", b"", b"-1", b"-0", b"4294967298"]:
+        for key in [b"0", b"%d" % max(L - 1, 0), b"%d" % L, b"%d" % (L + 1), b"7", b"13", b"+2", b"007", b"5x", b"name", b"", b"-1", b"-2", b"-2147483648", b"-0", b"4294967298"]:
             c = ["reset", "set 0 t ARRAY"] + ["appl 0 i %d" % (10 + i) for i in range(L)]
             c += ["set 0/k%s i 5" % hexs(key), "dump 0", "len 0", "set 1/k61 t ARRAY", "set 1/k61/k%s s %s" % (hexs(key), hexs(b"a long string value")),
                   "dump 1", "type 0/k%s" % hexs(key), "setv 2 0", "set 0/k%s/k62 i 1" % hexs(b"%d" % (L + 9)), "dumpall", "rc 0"]
@@ -1465,7 +1512,7 @@ def gen(rng, tier):
 
 def nontrivial(case):
     ops = [l.split()[0].lstrip("!") for l in case]
-    return len(case) >= 5 and any(o in ("setv", "setsub", "app", "ext", "clone", "copy", "set", "appl", "ctor") for o in ops) and \
+    return len(case) >= 5 and any(o in ("setv", "setsub", "setcs", "app", "ext", "clone", "copy", "set", "appl", "ctor") for o in ops) and \
         any(o in ("dump", "dumpall", "eq", "tostr", "conv") for o in ops)
 
 
@@ -1508,7 +1555,7 @@ def distribution(cases):
                 r = sim.apply(l)
             except Exception:
                 r = "sim-error"
-            if op in ("set", "setv", "setsub", "app", "appl", "resize", "remat", "rem", "clear", "ext", "clone", "copy", "drop", "ctor"):
+            if op in ("set", "setv", "setsub", "setcs", "app", "appl", "resize", "remat", "rem", "clear", "ext", "clone", "copy", "drop", "ctor"):
                 outcomes[r] = outcomes.get(r, 0) + 1
         for k, v in sim.stats.items():
             stats[k] = stats.get(k, 0) + v
@@ -1569,7 +1616,10 @@ LEVEL_TEXT = (
     "2^64, no detour through Long), ctor_type_zero (Var(Var::INT|NUMBER|FLOAT|BOOL) is zero / false), string_key_on_array_is_index "
     "(v[\"7\"] on an ARRAY takes exactly the auto-creating step v[7]; covered by history_safe like every other step), "
     "removeAt_out_of_range_noop (every int pair outside 0 <= i < len, 0 < n <= len - i, n = INT_MAX included, changes nothing), "
-    "assign_suffix_spec (p = *p + off, a const char* into the Var's own string, leaves exactly the suffix); "
+    "string_key_negative_on_array_is_self (a[\"-1\"] takes no step: an error that returns the Var itself), "
+    "assign_suffix_spec (p = *p + off, a const char* into the Var's own string, leaves exactly the suffix), assign_cstr_spec (p = *q + off "
+    "with q a string inside the array/object that p holds and releases, v = *v[0]: p denotes exactly that text), "
+    "int_vs_float_literal_exact (typed numeric comparisons are evaluated on exact values); "
     "(8) var_shared_growth_counterexample / autocreate_invalidates_source_counterexample: without the guards, Var c = a; a << ... leaves "
     "c with a released block, and v[5] = v[0] reads the source through a reference into a block the target path has moved (the two "
     "known findings). "
@@ -1583,8 +1633,9 @@ LEVEL_NOTE = (
     "reallocate or shift the block the already evaluated source reference points into (v[5] = v[0], v[\"a\"] = v[\"b\"] with a new "
     "key); no small safe repair exists (the reference dangles before operator= runs); (c) no statement makes a container contain itself "
     "(excluded by the property). Domain hypotheses without any library check (OutOfDomain in history_in_domain): const paths exist, "
-    "operands have the required kind (a string key applied to a scalar is refused: asl_error), indexes/roots in range (a negative index, "
-    "also one written as a string key on an array, is refused). "
+    "operands have the required kind, int indexes/roots in range (a negative int index is refused; a string key applied to a scalar or "
+    "a negative one applied to an array is NOT a hypothesis any more: the library reports an error and returns the Var itself, modelled and "
+    "executed as such). "
     "NOT MODELLED: the heap storage of a STRING (Array<char>: NEW_STRINGC/resize/DEL_STRING/dup) — the model keeps the bytes inline "
     "in the value, never shared; its allocation, in-place reuse, release and leak-freedom are checked only by K under ASan/LSan. "
     "Constructors NOT covered: Var{{\"k\", v}, ..} (initializer_list<Obj>), nested initializer lists, Array<T>/Dic<T> for T other than "
@@ -1604,6 +1655,10 @@ LEVEL_NOTE = (
     "(removeAt(i, INT_MAX) overflow; Array.h part 0854fc0), c047585 (ULong through Long), 7407dbc (string key on an array without a "
     "bound), 11663a3 (Var(Var::INT..BOOL) uninitialised); witnesses in corpus/C04/hunt.ops; each pre-fix tree is caught by the quick "
     "tier at seeds 1-3 (ASan memcpy-param-overlap / UBSan signed-integer-overflow / output divergence / heap-buffer-overflow). "
+    "A second hunt round found three more, repaired and generated: 7dd07aa (v = *v[0]: operator=(const char*) released the container "
+    "before copying from it; new op setcs), 095ba92 (a[\"-1\"] on an array wrote before the block), cda9080 (Var(16777217) == 16777216.0f: "
+    "here the driver and the python reference had COPIED the code's int->float rounding for the typed overload instead of the numeric "
+    "specification, so K agreed with the defect; both are exact now). "
     "(double)u for a ULong above 2^53 is modelled by round-to-nearest-even (Dy.ofIntD); only K validates that rounding."
 )
 TRUSTED = ["harness/c04.cpp is compiled with -fsanitize=signed-integer-overflow in addition to the framework's ASan/UBSan set (inline Var.h arithmetic)",
